@@ -457,7 +457,7 @@ def phase_crossover_frequencies(sys):
         # using real() to avoid rounding errors and results like 1+0j
         gains = np.real(sys(omega * 1j, warn_infinite=False))
     else:
-        zargs = _poly_z_invz(sys)
+        zargs = _poly_z_invz(tf)
         z, omega = _poly_z_real_crossing(*zargs, epsw=0.)
         gains = np.real(sys(z, warn_infinite=False))
 
